@@ -108,7 +108,24 @@ def balanceLine (arity : Nat) (code : List Sym) : String :=
     | some A => ",".intercalate ((offs.zip A).filterMap fun ((o, a) : Nat × Option DState) => a.map fun (st : DState) => s!"{o}:{st.1}")
     | none => "-"
   let npush := (code.filter fun (i : Sym) => match i with | .PushHandler _ _ => true | _ => false).length
-  s!"bal={b01 bal}|depth={b01 dep}|pass={b01 pass}|npush={npush}|H={hs}|D={ds}|pushes={pushTxt}|why={why}"
+  -- diagnostics of a rejection by the depth checker (untrusted; only used to word the report)
+  let showD (s : DState) : String :=
+    s!"depth={s.1} handlers(label:recorded)=[{",".intercalate (s.2.map fun ((l, rd) : Nat × Nat) => s!"{l}:{rd}")}]"
+  let dwhy := match inferX (depthFlow arity code) with
+    | .ok _ => "-"
+    | .conflict src pc inc ex =>
+      s!"conflict: two paths reach pc={pc} ({(code[pc]?.map Sym.toText).getD "?"}) with different layouts: from pc={src} ({(code[src]?.map Sym.toText).getD "?"}) {showD inc}, before {showD ex}"
+    | .breach src pc a =>
+      let instr := code[pc]?
+      let what := match instr, a.2 with
+        | some (.CheckHandler _), (_, rd) :: _ =>
+          if a.1 != rd + 1 then s!"the class test of a catch clause runs at depth {a.1}, but its handler recorded {rd}: {a.1 - (rd + 1)} slot(s) besides the filter lie above the layout of the try (left by a clause that declined the error, or pushed before the test)"
+          else "contract broken"
+        | some (.PushHandler rd _), _ => if rd != a.1 then s!"PushHandler records {rd} at depth {a.1}" else "contract broken"
+        | _, _ => "contract broken"
+      s!"breach at pc={pc} ({(instr.map Sym.toText).getD "end"}) reached from pc={src}: {what}; {showD a}"
+    | .fuel => "fuel"
+  s!"bal={b01 bal}|depth={b01 dep}|pass={b01 pass}|npush={npush}|H={hs}|D={ds}|pushes={pushTxt}|why={why}|dwhy={dwhy}"
 
 def stepBalance (_ : Unit) (line : String) : Unit × String :=
   match line.trimAscii.toString.splitOn "|" with
@@ -180,6 +197,13 @@ partial def toStmt : Sexp → Option LaytheVerif.TrySpec.Stmt
     some (.pipe (← toInts vals) ss (← toSink sink) (← toBlock body))
   | .list [.atom "sort", .list vals, .atom k, .list body] => do some (.sort (← toInts vals) (← k.toInt?) (← toBlock body))
   | .list [.atom "exit", .atom n] => do some (.exit (← n.toNat?))
+  | .list [.atom "lam", .atom f, .list params, .list body] => do
+    let ps ← params.mapM fun s => match s with
+      | .atom x => some x
+      | _ => none
+    some (.lam f ps (← toBlock body))
+  | .list [.atom "calll", .atom dst, .atom f, .list args] => do
+    some (.calll (if dst == "-" then none else some dst) f (← args.mapM toExpr))
   | .atom "break" => some .brk
   | .atom "continue" => some .cont
   | .list [.atom "return", e] => do some (.ret (← toExpr e))
@@ -231,6 +255,7 @@ partial def toSkel : Sexp → Option LaytheVerif.Handlers.Stmt
   | .atom "break" => some .break_
   | .atom "continue" => some .continue_
   | .atom "return" => some .return_
+  | .atom "capture" => some .capture
   | .list [.atom "if", .list b] => do some (.if_ (← toSkels b))
   | .list [.atom "while", .list b] => do some (.while_ (← toSkels b))
   | .list [.atom "try", .list b, .list cs] => do
